@@ -37,7 +37,7 @@ def default_config() -> Config:
                 invalid=lambda *_: ["foo"]
             ),
             'xs:positiveInteger': TypeGenerator(
-                valid=lambda *_: [generate_random_number(min_value=0)],
+                valid=lambda *_: [generate_random_number(min_value=1)],
                 invalid=lambda *_: ["-10", "foo"]
             ),
             'xs:integer': TypeGenerator(
